@@ -5,9 +5,11 @@ Property: translating and rotating a grid's nodes (including embedding 1-D and 2
 and planes of 3-D) leaves cell volumes and face areas unchanged and transforms centres and normals by the
 same motion.
 
-Everywhere: `M : Motion` is `x ↦ R x + t` with an explicit rational 3×3 matrix `R`; `M.R.IsRot` says
+Everywhere: `K` is any linearly ordered field (ℚ in the examples and the driver, ℝ in the `_real` theorems);
+`M : Motion K` is `x ↦ R x + t` with an explicit 3×3 matrix `R` over `K`; `M.R.IsRot` says
 `RᵀR = 1 ∧ det R = 1` (seven polynomial equations, decidable); `act M` moves points, `rot M` moves vectors;
-`sq : Rat → Rat` stands for the square root and is arbitrary (the statements hold for every function).
+`sq : K → K` stands for the square root and is arbitrary (the statements hold for every function; the `_real`
+theorems take `Real.sqrt`).
 `Out.move M o` leaves `fa` (face areas) and `cv` (cell volumes) alone, maps `fc`, `cc` (centres) with `act M`
 and `fn` (normals) with `rot M`.
 -/
@@ -16,47 +18,51 @@ import PorepyVerif.C20.Lemmas
 namespace PorepyVerif.C20
 open V3
 
+set_option linter.unusedSectionVars false
+
+variable {K : Type} [Field K] [LinearOrder K] [IsStrictOrderedRing K]
+
 /-! ### rotations and translations act on the building blocks (differences, dot and cross products) -/
 
 /-- dot products are rotation invariant (`RᵀR = 1`). -/
-theorem dot_rotate (M : Motion) (hM : M.R.IsRot) (a b : V3) : dot (rot M a) (rot M b) = dot a b :=
+theorem dot_rotate (M : Motion K) (hM : M.R.IsRot) (a b : V3 K) : dot (rot M a) (rot M b) = dot a b :=
   dot_rot M hM a b
 
 /-- squared lengths are rotation invariant. -/
-theorem norm2_rotate (M : Motion) (hM : M.R.IsRot) (a : V3) : norm2 (rot M a) = norm2 a :=
+theorem norm2_rotate (M : Motion K) (hM : M.R.IsRot) (a : V3 K) : norm2 (rot M a) = norm2 a :=
   norm2_rot M hM a
 
 /-- `R a × R b = R (a × b)` for proper rotations (`RᵀR = 1`, `det R = 1`; false for reflections). -/
-theorem cross_rotate (M : Motion) (hM : M.R.IsRot) (a b : V3) : cross (rot M a) (rot M b) = rot M (cross a b) :=
+theorem cross_rotate (M : Motion K) (hM : M.R.IsRot) (a b : V3 K) : cross (rot M a) (rot M b) = rot M (cross a b) :=
   cross_rot M hM a b
 
 /-- difference vectors do not see the translation. -/
-theorem diff_translate (M : Motion) (a b : V3) : sub (act M a) (act M b) = rot M (sub a b) :=
+theorem diff_translate (M : Motion K) (a b : V3 K) : sub (act M a) (act M b) = rot M (sub a b) :=
   act_sub_act M a b
 
 /-- the motions the harness generates satisfy the hypothesis `IsRot`: the matrix of any non-zero rational
     quaternion is a proper rotation. -/
-theorem quat_rotation_isRot (w x y z : Rat) (h : w * w + x * x + y * y + z * z ≠ 0) : (quatMat w x y z).IsRot :=
+theorem quat_rotation_isRot (w x y z : K) (h : w * w + x * x + y * y + z * z ≠ 0) : (quatMat w x y z).IsRot :=
   quatMat_isRot w x y z h
 
 /-- area-weighted normal of a triangle (the sub-simplex / sub-face normals of the 2-D and 3-D code). -/
-theorem tri_normal_equivariant (M : Motion) (hM : M.R.IsRot) (a b c : V3) :
+theorem tri_normal_equivariant (M : Motion K) (hM : M.R.IsRot) (a b c : V3 K) :
     triNormal (act M a) (act M b) (act M c) = rot M (triNormal a b c) := by
   simp only [triNormal, act_sub_act, cross_rot M hM, rot_smul]
 
 /-- squared area of a triangle. -/
-theorem tri_area2_invariant (M : Motion) (hM : M.R.IsRot) (a b c : V3) :
+theorem tri_area2_invariant (M : Motion K) (hM : M.R.IsRot) (a b c : V3 K) :
     triArea2 (act M a) (act M b) (act M c) = triArea2 a b c := by
   simp only [triArea2, tri_normal_equivariant M hM, norm2_rot M hM]
 
 /-- signed volume of a tetrahedron (triple product; the sub-tetrahedra of the 3-D code). -/
-theorem tet_volume_invariant (M : Motion) (hM : M.R.IsRot) (a b c d : V3) :
+theorem tet_volume_invariant (M : Motion K) (hM : M.R.IsRot) (a b c d : V3 K) :
     tetVolume (act M a) (act M b) (act M c) (act M d) = tetVolume a b c d := by
   simp only [tetVolume, act_sub_act, cross_rot M hM, dot_rot M hM]
 
 /-- weighted averages with invariant weights (cell centres, face centres): the average of the moved points
     is the moved average, provided the total weight is not zero. -/
-theorem centroid_equivariant (M : Motion) (l : List (Rat × V3)) (hW : rsum (l.map (·.1)) ≠ 0) :
+theorem centroid_equivariant (M : Motion K) (l : List (K × V3 K)) (hW : rsum (l.map (·.1)) ≠ 0) :
     wavg (l.map fun p => (p.1, act M p.2)) = act M (wavg l) :=
   wavg_act M l hW
 
@@ -64,13 +70,13 @@ theorem centroid_equivariant (M : Motion) (l : List (Rat × V3)) (hW : rsum (l.m
 
 /-- `compute_tangent`: the tangent of the moved point set is the rotated tangent; in particular the index
     chosen by `argmax` is the same (exact arithmetic). Used by `_compute_geometry_1d`. -/
-theorem tangent_equivariant (sq : Rat → Rat) (M : Motion) (hM : M.R.IsRot) (pts : List V3) (h : pts ≠ []) :
+theorem tangent_equivariant (sq : K → K) (M : Motion K) (hM : M.R.IsRot) (pts : List (V3 K)) (h : pts ≠ []) :
     tangent sq (pts.map (act M)) = rot M (tangent sq pts) :=
   tangent_act sq M hM pts h
 
 /-- `compute_normal` (point selection by two `argmax` included): the normal of the moved point cloud is the
     rotated normal. Used by the non-oriented branch of `_compute_geometry_2d`. -/
-theorem plane_normal_equivariant (sq : Rat → Rat) (M : Motion) (hM : M.R.IsRot) (pts : List V3) (h : pts ≠ []) :
+theorem plane_normal_equivariant (sq : K → K) (M : Motion K) (hM : M.R.IsRot) (pts : List (V3 K)) (h : pts ≠ []) :
     planeNormal sq (pts.map (act M)) = rot M (planeNormal sq pts) :=
   planeNormal_act sq M hM pts h
 
@@ -78,7 +84,7 @@ theorem plane_normal_equivariant (sq : Rat → Rat) (M : Motion) (hM : M.R.IsRot
 
 /-- `_compute_geometry_1d` (embedded line grids): areas and volumes invariant, centres moved, normals
     (tangent ± by the sign convention, flip test included) rotated. -/
-theorem geom1_equivariant (sq : Rat → Rat) (M : Motion) (hM : M.R.IsRot) (g : Grid1) (h : g.nodes ≠ []) :
+theorem geom1_equivariant (sq : K → K) (M : Motion K) (hM : M.R.IsRot) (g : Grid1 K) (h : g.nodes ≠ []) :
     geom1 sq (g.move M) = (geom1 sq g).move M :=
   geom1_move sq M hM g h
 
@@ -87,13 +93,13 @@ theorem geom1_equivariant (sq : Rat → Rat) (M : Motion) (hM : M.R.IsRot) (g : 
     normal from the sum of the sub-normals) and fallback path (plane normal from `compute_normal`,
     unsigned sub-areas, flipping of normals). Hypotheses: the grid has nodes, every cell has a face, no cell
     volume is zero (the code divides by it). -/
-theorem geom2_equivariant (sq : Rat → Rat) (M : Motion) (hM : M.R.IsRot) (g : Grid2) (hn : g.nodes ≠ [])
+theorem geom2_equivariant (sq : K → K) (M : Motion K) (hM : M.R.IsRot) (g : Grid2 K) (hn : g.nodes ≠ [])
     (hc : ∀ c ∈ g.cells, c ≠ []) (hv : ∀ v ∈ (geom2 sq g).cv, v ≠ 0) :
     geom2 sq (g.move M) = (geom2 sq g).move M :=
   geom2_move sq M hM g hn hc hv
 
 /-- … and the branch taken is itself invariant: the moved grid fails the same orientation checks. -/
-theorem geom2_branches_invariant (sq : Rat → Rat) (M : Motion) (hM : M.R.IsRot) (g : Grid2) (hn : g.nodes ≠ [])
+theorem geom2_branches_invariant (sq : K → K) (M : Motion K) (hM : M.R.IsRot) (g : Grid2 K) (hn : g.nodes ≠ [])
     (hc : ∀ c ∈ g.cells, c ≠ []) :
     check1 (g.move M) = check1 g ∧ check2Fails sq (g.move M) = check2Fails sq g ∧
       volOriented (nhat sq (g.move M)) (g.move M) = volOriented (nhat sq g) g := by
@@ -105,7 +111,7 @@ theorem geom2_branches_invariant (sq : Rat → Rat) (M : Motion) (hM : M.R.IsRot
     as the code forms it (`polyGrid vs`: faces = consecutive vertex pairs, fan of sub-triangles about the
     average of the edge midpoints): volume and edge lengths invariant, centre and edge midpoints moved,
     edge normals rotated. -/
-theorem polygon_cell_geometry_equivariant (sq : Rat → Rat) (M : Motion) (hM : M.R.IsRot) (vs : List V3)
+theorem polygon_cell_geometry_equivariant (sq : K → K) (M : Motion K) (hM : M.R.IsRot) (vs : List (V3 K))
     (hne : vs ≠ []) (hv : ∀ v ∈ (geom2 sq (polyGrid vs)).cv, v ≠ 0) :
     geom2 sq (polyGrid (vs.map (act M))) = (geom2 sq (polyGrid vs)).move M := by
   rw [polyGrid_move]
@@ -118,7 +124,7 @@ theorem polygon_cell_geometry_equivariant (sq : Rat → Rat) (M : Motion) (hM : 
 /-- one face of a 3-D grid given by its node loop (planar or not): area (sum of the sub-triangle areas)
     invariant, normal (sum of the sub-normals) rotated, centre (area-weighted mean of the sub-centroids)
     moved. First half of `_compute_geometry_3d`. -/
-theorem face3_geometry_equivariant (sq : Rat → Rat) (M : Motion) (hM : M.R.IsRot) (ps : List V3) (h : ps ≠ [])
+theorem face3_geometry_equivariant (sq : K → K) (M : Motion K) (hM : M.R.IsRot) (ps : List (V3 K)) (h : ps ≠ [])
     (hA : faceArea3 sq ps ≠ 0) :
     faceArea3 sq (ps.map (act M)) = faceArea3 sq ps ∧
       faceNormal3 (ps.map (act M)) = rot M (faceNormal3 ps) ∧
@@ -128,7 +134,7 @@ theorem face3_geometry_equivariant (sq : Rat → Rat) (M : Motion) (hM : M.R.IsR
 /-- one cell of a 3-D grid given by its faces (sign in `cell_faces`, node loop): volume (sum of the signed
     sub-tetrahedra about the mean of the face centres) invariant, centre moved, and the "negative
     tetrahedron" error test invariant. Second half of `_compute_geometry_3d`. -/
-theorem cell3_geometry_equivariant (sq : Rat → Rat) (M : Motion) (hM : M.R.IsRot) (c : Cell3) (hc : c ≠ [])
+theorem cell3_geometry_equivariant (sq : K → K) (M : Motion K) (hM : M.R.IsRot) (c : Cell3 K) (hc : c ≠ [])
     (hf : ∀ f ∈ c, f.2 ≠ [] ∧ faceArea3 sq f.2 ≠ 0) :
     cellVol3 sq (Cell3.move M c) = cellVol3 sq c ∧ cellCen3 sq (Cell3.move M c) = act M (cellCen3 sq c) ∧
       negTet (cellEdges sq (Cell3.move M c)) = negTet (cellEdges sq c) := by
@@ -138,20 +144,155 @@ theorem cell3_geometry_equivariant (sq : Rat → Rat) (M : Motion) (hM : M.R.IsR
 
 /-- `_compute_geometry_3d`, whole grid: all five fields, and the ValueError test. Hypotheses: faces have
     nodes and non-zero area (the code divides by it), cells have faces. -/
-theorem geom3_equivariant (sq : Rat → Rat) (M : Motion) (hM : M.R.IsRot) (g : Grid3)
+theorem geom3_equivariant (sq : K → K) (M : Motion K) (hM : M.R.IsRot) (g : Grid3 K)
     (hF : ∀ ps ∈ g.faces, ps ≠ [] ∧ faceArea3 sq ps ≠ 0)
     (hC : ∀ c ∈ g.cells, c ≠ [] ∧ ∀ f ∈ c, f.2 ≠ [] ∧ faceArea3 sq f.2 ≠ 0) :
     geom3 sq (g.move M) = (geom3 sq g).move M ∧ geom3Err sq (g.move M) = geom3Err sq g :=
   ⟨geom3_move sq M hM g hF hC, geom3Err_move sq M hM g hC⟩
 
+/-! ### the real numbers: the true square root and arbitrary real rotation matrices
+
+Everything above is proved for every linearly ordered field `K` and every function `sq : K → K`. Taking
+`K = ℝ` and `sq = Real.sqrt` gives the statements about the geometry the code computes up to rounding:
+`M : Motion ℝ` is ANY proper rigid motion (real rotation matrix, not only a rational one). -/
+
+/-- with `Real.sqrt`, `nrm` is the Euclidean length … -/
+theorem euclidean_length_real (v : V3 ℝ) : 0 ≤ nrm Real.sqrt v ∧ nrm Real.sqrt v * nrm Real.sqrt v = norm2 v :=
+  ⟨Real.sqrt_nonneg _, nrm_sqrt_mul_self v⟩
+
+/-- … which rotations preserve: `‖R v‖ = ‖v‖` … -/
+theorem norm_rotate_real (M : Motion ℝ) (hM : M.R.IsRot) (v : V3 ℝ) :
+    Real.sqrt (norm2 (rot M v)) = Real.sqrt (norm2 v) := by
+  rw [norm2_rot M hM]
+
+/-- … `v / ‖v‖` is a unit vector for `v ≠ 0` … -/
+theorem unit_normal_is_unit_real (v : V3 ℝ) (h : v ≠ zero) :
+    dot (normalize Real.sqrt v) (normalize Real.sqrt v) = 1 :=
+  normalize_sqrt_unit h
+
+/-- … and normalisation commutes with rotations: `(R v) / ‖R v‖ = R (v / ‖v‖)`. -/
+theorem unit_normal_equivariant_real (M : Motion ℝ) (hM : M.R.IsRot) (v : V3 ℝ) :
+    normalize Real.sqrt (rot M v) = rot M (normalize Real.sqrt v) :=
+  normalize_rot Real.sqrt M hM v
+
+/-- `_compute_geometry_1d` with the true square root under any real proper rigid motion. -/
+theorem geom1_equivariant_real (M : Motion ℝ) (hM : M.R.IsRot) (g : Grid1 ℝ) (h : g.nodes ≠ []) :
+    geom1 Real.sqrt (g.move M) = (geom1 Real.sqrt g).move M :=
+  geom1_equivariant Real.sqrt M hM g h
+
+/-- `_compute_geometry_2d` with the true square root under any real proper rigid motion (all branches). -/
+theorem geom2_equivariant_real (M : Motion ℝ) (hM : M.R.IsRot) (g : Grid2 ℝ) (hn : g.nodes ≠ [])
+    (hc : ∀ c ∈ g.cells, c ≠ []) (hv : ∀ v ∈ (geom2 Real.sqrt g).cv, v ≠ 0) :
+    geom2 Real.sqrt (g.move M) = (geom2 Real.sqrt g).move M :=
+  geom2_equivariant Real.sqrt M hM g hn hc hv
+
+/-- `_compute_geometry_3d` with the true square root under any real proper rigid motion. -/
+theorem geom3_equivariant_real (M : Motion ℝ) (hM : M.R.IsRot) (g : Grid3 ℝ)
+    (hF : ∀ ps ∈ g.faces, ps ≠ [] ∧ faceArea3 Real.sqrt ps ≠ 0)
+    (hC : ∀ c ∈ g.cells, c ≠ [] ∧ ∀ f ∈ c, f.2 ≠ [] ∧ faceArea3 Real.sqrt f.2 ≠ 0) :
+    geom3 Real.sqrt (g.move M) = (geom3 Real.sqrt g).move M ∧
+      geom3Err Real.sqrt (g.move M) = geom3Err Real.sqrt g :=
+  geom3_equivariant Real.sqrt M hM g hF hC
+
+/-! ### map_geometry: `rotation_matrix`, `project_plane_matrix` / `project_line_matrix`, `map_grid` -/
+
+/-- the Rodrigues matrix `I + [v]ₓ + [v]ₓ²/(1 + n·ref)`, `v = n × ref`, of a unit vector `n ≠ −ref` is a proper
+    rotation and takes `n` to the reference direction `ref = (0,0,1)` (any field; rational in `n`). -/
+theorem rodrigues_isRot (n : V3 K) (hn : dot n n = 1) (hc : 1 + n.z ≠ 0) :
+    (rodrigues n).IsRot ∧ (rodrigues n).mulVec n = ez := by
+  have hd : (1 / (1 + n.z)) * (1 + n.z) = 1 := by field_simp
+  have hn' : n.x * n.x + n.y * n.y + n.z * n.z = 1 := by simpa only [dot] using hn
+  rw [rodrigues_entries n _ hd]
+  refine ⟨rodEntries_isRot _ _ _ _ hn' hd, ?_⟩
+  have := rodEntries_mulVec n.x n.y n.z _ hn' hd
+  cases n
+  exact this
+
+/-- `project_plane_matrix(pts, normal = n)` / `project_line_matrix(pts, tangent = n)` as coded (`rotation_matrix`
+    of the angle `arccos (n·ref)` about `n × ref`, identity for a numerically vanishing axis; `sin (arccos c)` is
+    taken to be `√(1 − c²)`), over ℝ, for a unit vector `n`: it is always a proper rotation, and unless the axis
+    is numerically zero it is the Rodrigues matrix and takes `n` to `ref`. -/
+theorem project_matrix_real (n : V3 ℝ) (hn : dot n n = 1) :
+    (projectMatrix Real.sqrt n).IsRot ∧
+      (isSmall (cross n ez) = false →
+        projectMatrix Real.sqrt n = rodrigues n ∧ (projectMatrix Real.sqrt n).mulVec n = ez) :=
+  projectMatrix_sqrt n hn
+
+/-- `map_grid` over ℝ (grid of dimension 1 or 2 in 3-D, fitted tangent / normal not zero): the local fields are
+    the fields rotated by one proper rotation `R`, hence a rigid copy: distances and dot products of centres,
+    normals and nodes are those of the embedded grid. -/
+theorem map_grid_isometry_real (dim : Nat) (nodes : List (V3 ℝ)) (o : Out ℝ)
+    (h2 : dim = 2 → pnRaw Real.sqrt nodes ≠ zero) (h1 : dim ≠ 2 → tangentRaw nodes ≠ zero) :
+    let m := mapGrid Real.sqrt dim nodes o
+    m.R.IsRot ∧ m.cc = o.cc.map m.R.mulVec ∧ m.fn = o.fn.map m.R.mulVec ∧ m.fc = o.fc.map m.R.mulVec ∧
+      m.nodes = nodes.map m.R.mulVec ∧
+      ∀ p q : V3 ℝ, norm2 (sub (m.R.mulVec p) (m.R.mulVec q)) = norm2 (sub p q) ∧
+        dot (m.R.mulVec p) (m.R.mulVec q) = dot p q := by
+  intro m
+  have hR : m.R.IsRot := mapGrid_isRot dim nodes o h2 h1
+  exact ⟨hR, rfl, rfl, rfl, rfl, fun p q => mulVec_isometry m.R hR p q⟩
+
+/-- … and for a planar 2-D grid (all node differences orthogonal to the fitted normal) whose plane is not
+    numerically horizontal, the third local coordinate is the same for all nodes: the grid lies in a
+    coordinate plane, as `map_grid` asserts. -/
+theorem map_grid_flat_real (nodes : List (V3 ℝ)) (o : Out ℝ) (h2 : pnRaw Real.sqrt nodes ≠ zero)
+    (hs : isSmall (cross (planeNormal Real.sqrt nodes) ez) = false)
+    (hplanar : ∀ p ∈ nodes, ∀ q ∈ nodes, dot (pnRaw Real.sqrt nodes) (sub p q) = 0) :
+    ∀ p ∈ nodes, ∀ q ∈ nodes, ((mapGrid Real.sqrt 2 nodes o).R.mulVec p).z = ((mapGrid Real.sqrt 2 nodes o).R.mulVec q).z := by
+  intro p hp q hq
+  have hunit := normalize_sqrt_unit h2
+  obtain ⟨hR, hrest⟩ := projectMatrix_sqrt (planeNormal Real.sqrt nodes) hunit
+  have hRn := (hrest hs).2
+  have hRdef : (mapGrid Real.sqrt 2 nodes o).R = projectMatrix Real.sqrt (planeNormal Real.sqrt nodes) := by
+    simp only [mapGrid, if_true]
+  rw [hRdef]
+  refine mulVec_flat _ hR _ p q hRn ?_
+  have := hplanar p hp q hq
+  simp only [planeNormal, normalize, V3.smul, V3.dot] at this ⊢
+  linear_combination (((1 : Nat) : ℝ) / nrm Real.sqrt (pnRaw Real.sqrt nodes)) * this
+
+/-- compute_geometry followed by map_grid on the MOVED 2-D grid: the local centres / normals are the centres /
+    normals of the original grid carried along by the motion and one further proper rotation. -/
+theorem map_grid_of_moved_grid2_real (M : Motion ℝ) (hM : M.R.IsRot) (g : Grid2 ℝ) (hn : g.nodes ≠ [])
+    (hc : ∀ c ∈ g.cells, c ≠ []) (hv : ∀ v ∈ (geom2 Real.sqrt g).cv, v ≠ 0)
+    (h2 : pnRaw Real.sqrt g.nodes ≠ zero) :
+    let m := mapGrid Real.sqrt 2 (g.move M).nodes (geom2 Real.sqrt (g.move M))
+    m.R.IsRot ∧ m.cc = ((geom2 Real.sqrt g).cc.map (act M)).map m.R.mulVec ∧
+      m.fn = ((geom2 Real.sqrt g).fn.map (rot M)).map m.R.mulVec ∧
+      m.fc = ((geom2 Real.sqrt g).fc.map (act M)).map m.R.mulVec := by
+  intro m
+  have hmoved : pnRaw Real.sqrt (g.move M).nodes ≠ zero := by
+    show pnRaw Real.sqrt (g.nodes.map (act M)) ≠ zero
+    rw [pnRaw_act Real.sqrt M hM g.nodes hn]
+    exact rot_ne_zero M hM h2
+  have hR : m.R.IsRot := mapGrid_isRot 2 _ _ (fun _ => hmoved) (fun h => absurd rfl h)
+  have hg := geom2_equivariant Real.sqrt M hM g hn hc hv
+  refine ⟨hR, ?_, ?_, ?_⟩ <;> (show List.map _ _ = _; rw [hg]; rfl)
+
+/-- the same for 1-D grids (line fitted by `compute_tangent`). -/
+theorem map_grid_of_moved_grid1_real (M : Motion ℝ) (hM : M.R.IsRot) (g : Grid1 ℝ) (hn : g.nodes ≠ [])
+    (h1 : tangentRaw g.nodes ≠ zero) :
+    let m := mapGrid Real.sqrt 1 (g.move M).nodes (geom1 Real.sqrt (g.move M))
+    m.R.IsRot ∧ m.cc = ((geom1 Real.sqrt g).cc.map (act M)).map m.R.mulVec ∧
+      m.fn = ((geom1 Real.sqrt g).fn.map (rot M)).map m.R.mulVec ∧
+      m.fc = ((geom1 Real.sqrt g).fc.map (act M)).map m.R.mulVec := by
+  intro m
+  have hmoved : tangentRaw (g.move M).nodes ≠ zero := by
+    show tangentRaw (g.nodes.map (act M)) ≠ zero
+    rw [tangentRaw_act M hM g.nodes hn]
+    exact rot_ne_zero M hM h1
+  have hR : m.R.IsRot := mapGrid_isRot 1 _ _ (fun h => absurd h (by decide)) (fun _ => hmoved)
+  have hg := geom1_equivariant Real.sqrt M hM g hn
+  refine ⟨hR, ?_, ?_, ?_⟩ <;> (show List.map _ _ = _; rw [hg]; rfl)
+
 /-! ### non-vacuity: concrete rational rotations and grids satisfy every hypothesis -/
 
 /-- rotation from the quaternion (1,1,1,0): `R = ⅓ [[1,2,2],[2,1,-2],[-2,2,-1]]`, translation (1,-2,1/2) -/
-def M0 : Motion := ⟨⟨⟨1/3, 2/3, 2/3⟩, ⟨2/3, 1/3, -2/3⟩, ⟨-2/3, 2/3, -1/3⟩⟩, ⟨1, -2, 1/2⟩⟩
+def M0 : Motion Rat := ⟨⟨⟨1/3, 2/3, 2/3⟩, ⟨2/3, 1/3, -2/3⟩, ⟨-2/3, 2/3, -1/3⟩⟩, ⟨1, -2, 1/2⟩⟩
 /-- Pythagorean rotation about the x-axis (3-4-5) -/
-def M1 : Motion := ⟨⟨⟨1, 0, 0⟩, ⟨0, -3/5, -4/5⟩, ⟨0, 4/5, -3/5⟩⟩, ⟨0, 0, 7⟩⟩
+def M1 : Motion Rat := ⟨⟨⟨1, 0, 0⟩, ⟨0, -3/5, -4/5⟩, ⟨0, 4/5, -3/5⟩⟩, ⟨0, 0, 7⟩⟩
 /-- a reflection is rejected by `IsRot` -/
-def Mrefl : Motion := ⟨⟨⟨1, 0, 0⟩, ⟨0, 1, 0⟩, ⟨0, 0, -1⟩⟩, ⟨0, 0, 0⟩⟩
+def Mrefl : Motion Rat := ⟨⟨⟨1, 0, 0⟩, ⟨0, 1, 0⟩, ⟨0, 0, -1⟩⟩, ⟨0, 0, 0⟩⟩
 
 example : M0.R.IsRot := by decide +kernel
 example : M0.R = quatMat 1 1 1 0 := by decide +kernel
@@ -172,7 +313,7 @@ example : wavg ([(1, ⟨0, 0, 0⟩), (3, ⟨4, 0, 0⟩)].map fun p => (p.1, act 
 def sq0 (q : Rat) : Rat := if q = 4 then 2 else if q = 9 then 3 else if q = 1 / 4 then 1 / 2 else q
 
 /-- 1-D: the grid with nodes 0, 1, 3 on the x-axis (two cells) -/
-def g1 : Grid1 :=
+def g1 : Grid1 Rat :=
   { nodes := [⟨0, 0, 0⟩, ⟨1, 0, 0⟩, ⟨3, 0, 0⟩], faces := [⟨0, 0, 0⟩, ⟨1, 0, 0⟩, ⟨3, 0, 0⟩],
     cells := [(⟨0, -1, ⟨0, 0, 0⟩⟩, ⟨1, 1, ⟨1, 0, 0⟩⟩), (⟨1, -1, ⟨1, 0, 0⟩⟩, ⟨2, 1, ⟨3, 0, 0⟩⟩)] }
 example : (geom1 sq0 g1).cv = [1, 2] ∧ (geom1 sq0 g1).cc = [⟨1/2, 0, 0⟩, ⟨2, 0, 0⟩] := by decide +kernel
@@ -180,7 +321,7 @@ example : geom1 sq0 (g1.move M0) = (geom1 sq0 g1).move M0 :=
   geom1_equivariant sq0 M0 (by decide +kernel) g1 (by decide +kernel)
 
 /-- 2-D: the L-shaped (non-convex) hexagon with area 3 -/
-def lshape : List V3 := [⟨0, 0, 0⟩, ⟨2, 0, 0⟩, ⟨2, 1, 0⟩, ⟨1, 1, 0⟩, ⟨1, 2, 0⟩, ⟨0, 2, 0⟩]
+def lshape : List (V3 Rat) := [⟨0, 0, 0⟩, ⟨2, 0, 0⟩, ⟨2, 1, 0⟩, ⟨1, 1, 0⟩, ⟨1, 2, 0⟩, ⟨0, 2, 0⟩]
 example : (geom2 sq0 (polyGrid lshape)).cv = [3] ∧ (geom2 sq0 (polyGrid lshape)).cc = [⟨5/6, 5/6, 0⟩] ∧
     check1 (polyGrid lshape) = true ∧ volOriented (nhat sq0 (polyGrid lshape)) (polyGrid lshape) = true := by
   decide +kernel
@@ -188,7 +329,7 @@ example : geom2 sq0 (polyGrid (lshape.map (act M0))) = (geom2 sq0 (polyGrid lsha
   polygon_cell_geometry_equivariant sq0 M0 (by decide +kernel) lshape (by decide +kernel) (by decide +kernel)
 
 /-- 2-D, fallback path: a unit square whose second face is stored backwards (check 1 fails) -/
-def gsq : Grid2 :=
+def gsq : Grid2 Rat :=
   { nodes := [⟨0, 0, 0⟩, ⟨1, 0, 0⟩, ⟨1, 1, 0⟩, ⟨0, 1, 0⟩],
     faces := [(⟨0, 0, 0⟩, ⟨1, 0, 0⟩), (⟨1, 1, 0⟩, ⟨1, 0, 0⟩), (⟨1, 1, 0⟩, ⟨0, 1, 0⟩), (⟨0, 1, 0⟩, ⟨0, 0, 0⟩)],
     cells := [[⟨0, 1, 0, 1, ⟨0, 0, 0⟩, ⟨1, 0, 0⟩⟩, ⟨1, 1, 2, 1, ⟨1, 1, 0⟩, ⟨1, 0, 0⟩⟩,
@@ -198,13 +339,34 @@ example : geom2 sq0 (gsq.move M1) = (geom2 sq0 gsq).move M1 :=
   geom2_equivariant sq0 M1 (by decide +kernel) gsq (by decide +kernel) (by decide +kernel) (by decide +kernel)
 
 /-- 3-D: the unit right tetrahedron, faces oriented outwards -/
-def tetFaces : List (List V3) :=
+def tetFaces : List (List (V3 Rat)) :=
   [[⟨0, 0, 0⟩, ⟨0, 1, 0⟩, ⟨1, 0, 0⟩], [⟨0, 0, 0⟩, ⟨1, 0, 0⟩, ⟨0, 0, 1⟩],
    [⟨0, 0, 0⟩, ⟨0, 0, 1⟩, ⟨0, 1, 0⟩], [⟨1, 0, 0⟩, ⟨0, 1, 0⟩, ⟨0, 0, 1⟩]]
-def g3 : Grid3 := { faces := tetFaces, cells := [tetFaces.map fun ps => (1, ps)] }
+def g3 : Grid3 Rat := { faces := tetFaces, cells := [tetFaces.map fun ps => (1, ps)] }
 example : (geom3 id g3).cv = [1 / 6] ∧ (geom3 id g3).cc = [⟨1/4, 1/4, 1/4⟩] ∧ geom3Err id g3 = false := by
   decide +kernel
 example : geom3 id (g3.move M0) = (geom3 id g3).move M0 ∧ geom3Err id (g3.move M0) = geom3Err id g3 :=
   geom3_equivariant id M0 (by decide +kernel) g3 (by decide +kernel) (by decide +kernel)
+
+/-- an IRRATIONAL proper rotation (45° about the z-axis) satisfies the hypothesis of the real theorems -/
+noncomputable def M45 : Motion ℝ :=
+  ⟨⟨⟨Real.sqrt 2 / 2, -(Real.sqrt 2 / 2), 0⟩, ⟨Real.sqrt 2 / 2, Real.sqrt 2 / 2, 0⟩, ⟨0, 0, 1⟩⟩, ⟨Real.sqrt 2, 0, 1⟩⟩
+example : M45.R.IsRot := by
+  have hs : Real.sqrt 2 * Real.sqrt 2 = 2 := Real.mul_self_sqrt (by norm_num)
+  simp only [Mat3.IsRot, M45, Mat3.c1, Mat3.c2, Mat3.c3, Mat3.det, V3.dot, V3.cross]
+  push_cast
+  refine ⟨?_, ?_, ?_, ?_, ?_, ?_, ?_⟩
+  · linear_combination (1 / 2 : ℝ) * hs
+  · linear_combination (1 / 2 : ℝ) * hs
+  · ring
+  · ring
+  · ring
+  · ring
+  · linear_combination (1 / 2 : ℝ) * hs
+
+/-- the Rodrigues matrix of the unit vector (2/3, 1/3, 2/3) -/
+example : (rodrigues (⟨2/3, 1/3, 2/3⟩ : V3 Rat)).IsRot ∧ (rodrigues (⟨2/3, 1/3, 2/3⟩ : V3 Rat)).mulVec ⟨2/3, 1/3, 2/3⟩ = ez :=
+  rodrigues_isRot _ (by decide +kernel) (by decide +kernel)
+example : rodrigues (⟨2/3, 1/3, 2/3⟩ : V3 Rat) = ⟨⟨11/15, -2/15, -2/3⟩, ⟨-2/15, 14/15, -1/3⟩, ⟨2/3, 1/3, 2/3⟩⟩ := by decide +kernel
 
 end PorepyVerif.C20
